@@ -729,6 +729,7 @@ def run_chunk(chunk, tier):
             res.symbols["T=%r" % T] += 1
     elif kind == "Gsym":
         _state_Gsym(res)
+        res.sample(dict(layer="Gsym", functions=["limiting", "extended", "davies", "davies-defaultC", "extended-a0"]), limit=1)
     elif kind == "G":
         z = chunk[1]
         for IS in G_IS:
@@ -741,6 +742,7 @@ def run_chunk(chunk, tier):
         for IS in G_IS:
             for a_nm in (0.0, 0.3, 0.9):
                 _state_Gu(res, z, IS, a_nm)
+        res.sample(dict(layer="Gu", z=z, I_molal=G_IS, a_nm=[0.0, 0.3, 0.9]), limit=1)
     elif kind == "P":
         _, n, j = chunk
         rng = range(-b["stoich_range"], b["stoich_range"] + 1)
